@@ -95,10 +95,10 @@ theorem untyped_source_counterexample :
   decide
 
 /-- Known finding `assign-str-appends`: Assign (no buffer) of the int 5 into a `*string` holding "ab" leaves
-"ab5" in the current tree; the property demands "5". -/
+"ab5" in the tree as it was before the `fix:` commit (AssignCfg.original); the property demands "5". -/
 theorem repo_not_correct_str_appends :
     assignAccepts .string (.str (strBytes "ab")) (intSrc 5) false
-      ((assignObsOf (assignM AssignCfg.repo .string (.str (strBytes "ab")) (intSrc 5) true)
+      ((assignObsOf (assignM AssignCfg.original .string (.str (strBytes "ab")) (intSrc 5) true)
           .string (.str (strBytes "ab")) (intSrc 5) true).getD {}).norm = false := by
   decide
 
